@@ -1,12 +1,11 @@
 SPEC = {
     'id': 'C26',
-    'harness': 'hC25',
+    'harness': 'hC26',
     'coq_dir': 'C26',
     'claimed': True,
     'theorems': ['C26_sequence_gapfree', 'C26_sequence_no_reuse', 'C26_replay_is_best_chain'],
     'allowed_axioms': [],
-    'shard': 12,
-    'harness_args': {'quick': ['--extra', 'c26'], 'thorough': ['--extra', 'c26']},
+    'shard': 16,
     'rule': 'same generator as C25 (harness hC25 with --extra c26): a factory test node builds executed block trees '
             '(trunk 8-18 blocks, 3-5 side branches, fork points below and above the 12-block margin, 4 Difficulty '
             'values); every order (creation, reverse, by height, shuffles, shuffles with duplicates, local swaps, '
